@@ -1418,6 +1418,29 @@ Tokens""")]),
             else "{!s}".format(sig_param.annotation)""", """            "{!s}".format(sig_param.annotation)
             if not __import__("inspect").isclass(sig_param.annotation)
             else sig_param.annotation.__name__""")]),
+    # ---- TABLE-style: the reader's heading test against the writer's prose-less parameter line
+    dict(id="heading-test-after-rstrip", kind=B, props=["C01"], expect="TABLE-style", edits=[("docstring_parsers.py",
+         """        (idx for idx, elem in enumerate(scanned_params) if elem[0].endswith(":")), None""",
+         """        (idx for idx, elem in enumerate(scanned_params) if elem[0].rstrip().endswith(":")), None""")]),
+    dict(id="heading-test-neutral-loop", kind=N, props=["C01"], expect="silent", edits=[("docstring_parsers.py",
+         """        (idx for idx, elem in enumerate(scanned_params) if elem[0].endswith(":")), None""",
+         """        (idx for idx, entry in enumerate(scanned_params) if entry[0].rstrip("\\n").endswith(":")), None""")]),
+    # ---- WRAP-WIDTH (C18, C01, C03)
+    dict(id="wrapwidth-second-pass-narrower", kind=B, props=["C18", "C01", "C03"], expect="WRAP-WIDTH", edits=[("emitter_utils.py",
+         """            indent_all_but_first(fill(s), indent_level + 1, wipe_indents=True)""",
+         """            indent_all_but_first(fill(s, width=line_length - 8), indent_level + 1, wipe_indents=True)""")]),
+    dict(id="wrapwidth-neutral-explicit-same-width", kind=N, props=["C18", "C01", "C03"], expect="silent", edits=[("emitter_utils.py",
+         """            indent_all_but_first(fill(s), indent_level + 1, wipe_indents=True)""",
+         """            indent_all_but_first(fill(s, width=line_length), indent_level + 1, wipe_indents=True)""")]),
+    # ---- FALSY none-marker clause (C03)
+    dict(id="falsy-none-marker-is-no-return", kind=B, props=["C03"], expect="FALSY", edits=[("emit.py",
+         """        not in (None, "")
+        else None""", """        not in none_types + ("",)
+        else None""")]),
+    dict(id="falsy-neutral-absent-set", kind=N, props=["C03"], expect="silent", edits=[("emit.py",
+         """        not in (None, "")
+        else None""", """        not in frozenset((None, ""))
+        else None""")]),
     # ---- PARAM-KEPT (C07, C03)
     dict(id="paramkept-return-type-popped-in-merge", kind=B, props=["C07", "C03"], expect="PARAM-KEPT", edits=[("parser_utils.py",
          """    if "return_type" not in (target.get("returns") or iter(())):""",
